@@ -58,7 +58,7 @@ func (f *AssocIfNot) Call(s *slip.Scope, args slip.List, depth int) (found slip.
 	predicate := ResolveToCaller(s, args[pos], depth)
 	pos++
 	alist, ok := args[pos].(slip.List)
-	if !ok {
+	if !ok && args[pos] != nil {
 		slip.TypePanic(s, depth, "alist", args[pos], "list")
 	}
 	pos++
